@@ -228,8 +228,9 @@ Definition order_fetch (order : list (bytes * list Z)) (tps : fetch_tps) : fetch
                            | None => ps end))
       (reorder (map fst order) tps).
 
-(* nesting of compressed sets the model follows; deeper nesting is EOutOfFuel *)
-Definition decode_depth : nat := 8.
+(* message set levels decoded per partition (protocol/fetch.rs MAX_COMPRESSION_DEPTH, regenerated from the source);
+   a set nested deeper is refused with UnsupportedCompression *)
+Definition decode_depth : nat := MAX_COMPRESSION_DEPTH.
 
 Fixpoint fetch_exchange (corr : Z) (reqs : list (bytes * fetch_tps)) (acc : list fetch_resp)
   : M (list fetch_resp) :=
